@@ -168,6 +168,7 @@ def write_evidence(prop, tier, seed, results, wall, nviol, knownhits):
         })
     states = sum(int(r.get("paths") or 0) + int(r.get("ssa_steps") or 0) for r in results)
     queries = sum(int(r.get("queries") or 0) for r in results)
+    evals = sum(sum(sum(d.values()) for d in (r.get("checks") or {}).values()) for r in results)
     val = sum(int((r.get("validation") or {}).get("agreed") or 0) for r in results) + \
         sum(len(r.get("cex") or []) for r in results)
     assumptions = set()
@@ -184,7 +185,8 @@ def write_evidence(prop, tier, seed, results, wall, nviol, knownhits):
     ev = {
         "property_id": prop, "tier": tier, "seed": seed, "level": "model_checking",
         "coverage": {
-            "states": max(states, 0), "transitions": max(queries, 0),
+            "states": max(states, 0), "transitions": max(queries + evals, 0),
+            "solver_queries": queries, "obligation_evaluations": evals,
             "traces_validated_against_impl": val,
             "samples": samples,
             "obligations": len(results), "discharged": len([r for r in results if r["status"] == "pass"]),
@@ -194,7 +196,9 @@ def write_evidence(prop, tier, seed, results, wall, nviol, knownhits):
             "solver_s": round(sum(float(r.get("solver_s") or 0) for r in results), 3),
             "peak_rss_mb": max([int(r.get("peak_rss_mb") or 0) for r in results] or [0]),
             "explanation": "states = symbolic paths explored (engine B) + CBMC SSA steps (engine A); transitions = "
-                           "solver queries discharged; traces_validated = encoder-validation vectors on which the "
+                           "solver queries discharged + obligation evaluations decided along the paths (an obligation whose "
+                           "operands are concrete on a path, e.g. after a case split of a small-range input, is decided without "
+                           "a solver call); traces_validated = encoder-validation vectors on which the "
                            "encoding and the native build of the same IR agreed + natively replayed counterexamples",
         },
         "assumptions": sorted(assumptions),
